@@ -213,10 +213,18 @@ def run_program(ctx, jax, jnp, fedjax, fec, rng, nds):
     snap = [np.array(l) for l in owned]
     w = {**wit, 'backend': name}
 
+    form = int(rng.randint(3))   # clients / batches are Iterables: list, tuple-of-lists, or one-shot generators
+
     def call():
       with fedjax.for_each_client_backend(backend):
         f = fedjax.for_each_client(init, step, final, with_step_result=wsr)
-      return list(f(shared, clients))
+      if form == 0:
+        arg = clients
+      elif form == 1:
+        arg = tuple((c, tuple(b), ci) for c, b, ci in clients)
+      else:
+        arg = ((c, (x for x in b), ci) for c, b, ci in clients)
+      return list(f(shared, arg))
 
     r = ctx.call(f'for_each_client[{fam}]', call, witness=w)
     if not r.ok:
